@@ -358,6 +358,12 @@ def run(rep):
             d = G.element(name, 9, 2)
             d['kids'] = [G.element(x, 1, 2) for x in w]
             cases.append(d)
+        # the same child two and three times over, alone (the first duplication of a repeated root then goes through the 'every leaf is full' branch)
+        if repeats:
+            for w in [w for w in _rx.words(_rx.of_tree(part), _rx.alphabet(part), 3, 400) if len(w) in (2, 3) and len(set(w)) == 1][:(6 if quick else 40)]:
+                d = G.element(name, 9, 2)
+                d['kids'] = [G.element(x, 1, 2) for x in w]
+                cases.append(d)
     texts = [docgen.to_xml(c) for c in cases]
     # repository sample files
     samples = []
@@ -392,6 +398,7 @@ def run(rep):
                 if site is not None:
                     order_sites.append((node, text, r['s'], d, site))
                     continue
+                kind = 'children'            # not the same children in another order: one is missing, or there is one more - never the recorded re-ordering
             rep.finding_or_violation('C09:loss:%s' % kind, 'schema-valid <%s> document is altered by parse + serialise: %s' % (node['tag'], d), {'document': text[:2500], 'difference': d, 'output': r['s'][:2500]})
         else:
             n_ok += 1
